@@ -81,6 +81,8 @@ def main():
     for extra in os.environ.get("EXTRA_PROPS", "").split():
         if extra not in claimed:
             claimed.append(extra)
+    if os.environ.get("ONLY_PROPS"):
+        claimed = os.environ["ONLY_PROPS"].split()
     base = json.load(open("/root/.vp/BASELINE.json"))
     always = "\n".join("  - " + x for x in base["always_fail"])
     used = {}
